@@ -1,2 +1,92 @@
-(* C10 — any well-formed BBI file is read correctly, whoever wrote it.  (under construction) *)
-From BT Require Import Base.Util Spec.FormatEmit.
+(* C10 — any well-formed BBI file is read correctly, whoever wrote it.
+   Only statements, closed by [exact], with Print Assumptions beneath each. *)
+From BT Require Import Base.Util Base.LE Base.Float Model.RTree Model.BBIFile Model.BigWigWrite Model.BBIRead
+  Proofs.RTreeAbs Proofs.RTreeCodec Spec.FormatEmit Spec.FormatWf Model.ReadBed_C10
+  Proofs.C10Codec Proofs.C10Search Proofs.C10Sections Proofs.C10ChromTree.
+Local Open Scope N_scope.
+
+(* ---- R-tree search on any well-formed node store -------------------------------------------
+   A node store is a finite map offset -> node.  If (1) every stored node is what the reader
+   parses at that offset of the byte image, (2) the walk from [root] resolves every pointer within
+   depth h and lists the leaf items [ls], (3) every recorded span covers every leaf item beneath
+   it, then the reader's search from [root] returns exactly the items of [ls] that overlap the
+   query, in walk order, as soon as the fuel exceeds the number of node visits.  No assumption on
+   fan-out, depth (not even uniform), order or placement of the nodes, nor on the byte order.
+   This is C05's search theorem without the layout assumption. *)
+Theorem C10_search_any_tree : forall big bs (st : store) h root ls q qs qe,
+  (forall o n, st_find o st = Some n -> read_node big bs o = Ok n) ->
+  st_leaves st h root = Some ls -> st_cov st h root ->
+  forall fuel, (st_size st h root < fuel)%nat ->
+    search_bytes fuel big bs root q qs qe
+    = Ok (map (fun i => (li_off i, li_size i)) (filter (fun i => overlaps q qs qe (li_span i)) ls)).
+Proof. exact search_any_store. Qed.
+Print Assumptions C10_search_any_tree.
+
+(* the same for node stores keyed by anything (node numbers, for instance), nodes read at [off key] *)
+Theorem C10_search_any_tree_keyed : forall (K : Type) (get : K -> option (gnode K)) (off : K -> N) big bs,
+  (forall k g, get k = Some g -> read_node big bs (off k) = Ok (render off g)) ->
+  forall q qs qe h root ls, gleaves get h root = Some ls -> gcov get h root ->
+  forall fuel, (gsize get h root < fuel)%nat ->
+    search_bytes fuel big bs (off root) q qs qe = Ok (hits q qs qe ls).
+Proof. intros K get off big bs H q qs qe h root ls. exact (search_any_root get off big bs H q qs qe h root ls). Qed.
+Print Assumptions C10_search_any_tree_keyed.
+
+(* ---- byte order --------------------------------------------------------------------------- *)
+(* every fixed-width field round-trips in either byte order; the two orders are mirror images *)
+Theorem C10_endianness : forall big w x, x < 256 ^ N.of_nat w ->
+  dec big (enc big w x) = x /\ enc big w x = rev (enc (negb big) w x) /\ (forall bs, dec big bs = dec (negb big) (rev bs)).
+Proof. intros big w x H. split; [now apply dec_enc|]. split; [apply enc_flip|intros bs; apply dec_flip]. Qed.
+Print Assumptions C10_endianness.
+(* every field accessor of the readers, [dec big (firstn w (skipn o d))] on a record of fixed-width
+   fields encoded in byte order [big], returns the field that starts at byte o -- for both orders *)
+Theorem C10_endianness_fields : forall big fs o w x rest, fld_at fs o = Some (w, x) -> x < 256 ^ N.of_nat w ->
+  dec big (firstn w (skipn o (enc_flds big fs ++ rest))) = x.
+Proof. exact dec_fld. Qed.
+Print Assumptions C10_endianness_fields.
+
+(* ---- bigWig sections ---------------------------------------------------------------------- *)
+(* A section of type 1, 2 or 3 that the format can express (sec_ok: one chromosome, at most 65535
+   items, u32 fields; type 2: common span; type 3: common span and constant step) decodes, in
+   either byte order, to exactly its items clipped to the query -- or to "other chromosome". *)
+Theorem C10_sections : forall L ty c v0 rest chrom s e,
+  sec_ok ty ((c, v0) :: rest) = true ->
+  section_values (l_big L) (sec_payload L ty ((c, v0) :: rest)) chrom s e
+  = Ok (if c =? chrom then Some (clip_filter s e (map snd ((c, v0) :: rest))) else None).
+Proof. exact section_decode. Qed.
+Print Assumptions C10_sections.
+(* what the fixed-step decoder computes: item i is [start + i*step, start + i*step + span) *)
+Theorem C10_sections_fixed_step : forall L step span vs rest cur i b,
+  Forall bits_ok vs -> nth_error (map v_bits vs) i = Some b ->
+  nth_error (parse_type3 (l_big L) step span cur (length vs) (flat_map (vitem_bytes L 3) vs ++ rest)) i
+  = Some {| v_start := cur + N.of_nat i * step; v_end := cur + N.of_nat i * step + span; v_bits := b |}.
+Proof. intros. rewrite parse_type3_ok by assumption. now apply fixed_items_nth. Qed.
+Print Assumptions C10_sections_fixed_step.
+(* the variable-step decoder: listed start, start + the section's span *)
+Theorem C10_sections_var_step : forall L span vs rest, Forall bits_ok vs ->
+  parse_type2 (l_big L) span (length vs) (flat_map (vitem_bytes L 2) vs ++ rest)
+  = map (fun v => {| v_start := v_start v; v_end := v_start v + span; v_bits := v_bits v |}) vs.
+Proof. exact parse_type2_ok. Qed.
+Print Assumptions C10_sections_var_step.
+(* zoom record blocks and bigBed entry blocks, either byte order *)
+Theorem C10_zoom_block : forall L recs chrom s e, Forall (fun z => zraw_ok z = true) recs ->
+  zoom_values (l_big L) (flat_map (zraw_bytes L) recs) chrom s e
+  = Ok (Some (map zrec_of (filter (fun z => (zr_chrom z =? chrom) && (s <=? zr_end z) && (zr_start z <=? e)) recs))).
+Proof. exact zoom_decode. Qed.
+Print Assumptions C10_zoom_block.
+Theorem C10_bed_block : forall L c items, forallb (fun cb => fst cb =? c) items = true -> forallb bed_ok items = true ->
+  forall fuel more, (length items < fuel)%nat -> (length more < 12)%nat ->
+  bed_entries fuel (l_big L) c (flat_map (bed_bytes L) items ++ more) = Ok (map snd items).
+Proof. exact bed_decode. Qed.
+Print Assumptions C10_bed_block.
+
+(* ---- chromosome tree ---------------------------------------------------------------------- *)
+(* For every node store (keys of any kind) whose nodes sit, encoded in byte order [big] with key
+   width [key], at the offsets their keys stand for: if the walk from k resolves within depth h and
+   lists the chromosomes l, the reader's recursive walk returns l, in order -- any depth, any
+   fan-out, any placement. *)
+Theorem C10_chrom_tree : forall (K : Type) (get : K -> option (cgnode K)) (off : K -> N) big bs key,
+  (forall k g, get k = Some g -> has_at bs (off k) (cg_bytes off big key g) /\ cg_ok off key g) ->
+  forall h k l, cleaves get h k = Some l ->
+  forall fuel, (h <= fuel)%nat -> read_chrom_block fuel big bs key (off k) = Ok l.
+Proof. intros K get off big bs key H. exact (chrom_walk get off big bs key H). Qed.
+Print Assumptions C10_chrom_tree.
